@@ -295,13 +295,40 @@ def custom_histories():
             yield "custom-commands", [{"kind": "parse-fresh", "script": sc, "custom": True} for sc in combo]
 
 
+CARRY_FIRST = [
+    b'if true { keep; }', b'if true { keep; } elsif false { stop; }', b'if true { keep; } else { stop; }',
+    b'if true { if false { keep; ', b'if true { if false { keep; } foo; }', b'if true { keep; } foo;', b'if true { keep', b'if anyof (true,',
+    b'if true { keep; } keep;', b'if true {', b'if true { keep; } @', b'if true { keep; } elsif', b'if true { keep; } else {',
+    b'if true { keep; } else { stop; } else { keep; }', b'if not', b'if anyof (true, allof (false', b'keep', b'keep; if true { "x" }',
+    b'require ["fileinto"]; if true { fileinto "x"; } elsif true { fileinto :copy "y"; }', b'if header ["a", "b"', b'if header :is',
+]
+CARRY_SECOND = [
+    b'else { keep; }', b'elsif true { keep; }', b'keep;', b'if true { stop; }', b'stop; keep;', b'} keep;', b') { keep; }', b', true) { keep; }',
+    b'if true { keep; } else { stop; }', b'true', b'{ keep; }', b'"b"] "c" { keep; }', b'"a" "b" { keep; }', b'if true { else { keep; } }',
+    b'if true { keep; elsif true { stop; } }', b'; keep;', b'if true { keep; } elsif false { stop; } else { discard; }',
+]
+
+
+def carry_histories():
+    """Control-structure state must not survive from one parse to the next on a long-lived Parser:
+    every ordered pair (and pairs separated by a plain script) of what one script leaves open or
+    ends with and what the next one starts with."""
+    for a in CARRY_FIRST:
+        for b in CARRY_SECOND:
+            yield "carry-over", [{"kind": "parse-reused", "script": a}, {"kind": "parse-reused", "script": b}]
+            yield "carry-over", [{"kind": "parse-reused", "script": a}, {"kind": "parse-fresh", "script": b}]
+    for a in CARRY_FIRST:
+        for b in CARRY_SECOND[:4]:
+            yield "carry-over", [{"kind": "parse-reused", "script": a}, {"kind": "parse-reused", "script": b'keep;'}, {"kind": "parse-reused", "script": b}]
+
+
 def first_contact_worker(arg):
     k, n = arg
     pristine = Pristine(execute)
     col = core.Collector()
     try:
         import itertools
-        for i, (name, steps) in enumerate(itertools.chain(first_contact_histories(), custom_histories())):
+        for i, (name, steps) in enumerate(itertools.chain(first_contact_histories(), custom_histories(), carry_histories())):
             if i % n != k:
                 continue
             fails = pristine.query(("history", steps))
